@@ -6,6 +6,7 @@ import Driver.Fault
 import Driver.Savable
 import Driver.Futures
 import Driver.Launcher
+import Driver.PortsOut
 
 /-- `pmodel <component>`: line-protocol driver over the executable model definitions. -/
 def main (args : List String) : IO UInt32 := do
@@ -18,4 +19,5 @@ def main (args : List String) : IO UInt32 := do
   | ["savable"] => DrvSavable.main; return 0
   | ["futures"] => DrvFutures.main; return 0
   | ["launcher"] => DrvLauncher.main; return 0
-  | _ => IO.eprintln "usage: pmodel <expose|fault|futures|launcher|outline|pm|ports|savable>"; return 2
+  | ["portsout"] => DrvPortsOut.main; return 0
+  | _ => IO.eprintln "usage: pmodel <expose|fault|futures|launcher|outline|pm|ports|portsout|savable>"; return 2
